@@ -72,8 +72,20 @@ def main():
     out = os.path.join(VERIF, "notes", "sensitivity")
     os.makedirs(out, exist_ok=True)
     tag = (args.property or "all").upper()
-    with open(os.path.join(out, f"{tag}.json"), "w") as fh:
-        json.dump(results, fh, indent=1)
+    path = os.path.join(out, f"{tag}.json")
+    merged = {}
+    if os.path.exists(path):
+        try:
+            with open(path) as fh:
+                merged = json.load(fh)
+        except ValueError:
+            merged = {}
+    for k, v in results.items():
+        merged.setdefault(k, {}).update({str(s): r for s, r in v.items()})
+    valid = {f"{m[0]}:{m[1]}" for m in MUTANTS}
+    merged = {k: v for k, v in merged.items() if k in valid}
+    with open(path, "w") as fh:
+        json.dump(merged, fh, indent=1, sort_keys=True)
     killed = sum(1 for k, v in results.items() if all(r.get("killed") for r in v.values()))
     print(f"killed {killed}/{len(results)} at all seeds")
 
